@@ -8,7 +8,7 @@
    [reads s i] = the direct node_deps of node i plus the targets its dependencies resolve to through
    aliases;  [indep s i j] = i <> j and neither reads the other.
    Guards: [no_overwrite] (declared output paths pairwise distinct), [labels_distinct], [keys_apart]
-   (different targets never get the same change key; follows from [labels_prefix_free] for an injective
+   (different targets never get the same change key; follows from [labels_distinct] for an injective
    hex digest), [cmds_ok] (a target that declares outputs has a command), [cache_complete] (every stored
    result's blobs are in the CAS: no blob faults). *)
 From Coq Require Import List Permutation.
@@ -120,12 +120,12 @@ Theorem SCHED_build_is_any_read_order : forall (H : str -> str),
 Proof. exact build_is_any_topo_order. Qed.
 Print Assumptions SCHED_build_is_any_read_order.
 
-(* the guard on the keys follows from a decidable one for hex digests *)
-Theorem SCHED_keys_apart_prefix_free : forall (H : str -> str) s,
+(* the guard on the keys follows from the guard on the labels for hex digests (framed key encoding, C09_injective) *)
+Theorem SCHED_keys_apart_labels_distinct : forall (H : str -> str) s,
   (forall x y, H x = H y -> x = y) -> (forall x, ~ In ch_us (H x)) ->
-  labels_prefix_free s -> keys_apart H s /\ labels_distinct s.
-Proof. exact guards_prefix_free. Qed.
-Print Assumptions SCHED_keys_apart_prefix_free.
+  labels_distinct s -> keys_apart H s.
+Proof. exact keys_apart_labels_distinct. Qed.
+Print Assumptions SCHED_keys_apart_labels_distinct.
 
 Local Open Scope string_scope.
 (* 4. non-vacuity: the diamond a; b, c -> a; d -> b, c with the identity digest *)
@@ -172,8 +172,8 @@ Theorem SCHED_step_respects_beq_nonvacuous :
 Proof. exact d_congr_nonvacuous. Qed.
 Print Assumptions SCHED_step_respects_beq_nonvacuous.
 
-(* the decidable key guard with an injective hex digest: the diamond satisfies all guards *)
-Theorem SCHED_keys_apart_prefix_free_nonvacuous :
-  labels_prefix_free d_s /\ guards HashKey_proofs.hex_enc d_s.
-Proof. exact (conj d_prefix_free d_guards_hex). Qed.
-Print Assumptions SCHED_keys_apart_prefix_free_nonvacuous.
+(* the key guard from the labels with an injective hex digest: the diamond satisfies all guards *)
+Theorem SCHED_keys_apart_labels_distinct_nonvacuous :
+  labels_distinct d_s /\ guards HashKey_proofs.hex_enc d_s.
+Proof. exact (conj d_labels_distinct d_guards_hex). Qed.
+Print Assumptions SCHED_keys_apart_labels_distinct_nonvacuous.
